@@ -352,7 +352,8 @@ func forEachMediaRange(header []byte, functor func([]byte)) {
 
 	for len(header) > 0 {
 		n := 0
-		header = utils.TrimLeft(header, ' ')
+		// optional whitespace is SP / HTAB (RFC 9110 section 5.6.3)
+		header = bytes.TrimLeft(header, " \t")
 		quotes := 0
 		escaping := false
 
@@ -389,7 +390,7 @@ func forEachMediaRange(header []byte, functor func([]byte)) {
 		}
 
 		// optional whitespace before the list comma is not part of the element (RFC 9110 section 5.6.1)
-		functor(utils.TrimRight(header[:n], ' '))
+		functor(bytes.TrimRight(header[:n], " \t"))
 
 		if n >= len(header) {
 			return
@@ -461,7 +462,7 @@ func getOffer(header []byte, isAccepted func(spec, offer string, specParams head
 			}
 		}
 
-		spec = utils.Trim(spec, ' ')
+		spec = bytes.Trim(spec, " \t")
 
 		// Determine specificity
 		var specificity int
